@@ -99,6 +99,34 @@ func EnumSmall(nNames, maxLen int, visit func(*Case)) {
 	rec(nil)
 }
 
+// EnumClears enumerates every sequence of up to maxLen operations over two
+// names drawn from {reg a->b, reg b->a, reg a->a, ClearUpcasts,
+// ClearUpcastsForType(a), ClearUpcastsForType(b)} (faithful upcasters).
+func EnumClears(maxLen int, visit func(*Case)) {
+	a, b := Names[0], Names[1]
+	ops := []Op{
+		{K: "reg", From: a, To: b, F: "faithful"},
+		{K: "reg", From: b, To: a, F: "faithful"},
+		{K: "reg", From: a, To: a, F: "faithful"},
+		{K: "clear"},
+		{K: "cleartype", From: a},
+		{K: "cleartype", From: b},
+	}
+	var rec func(prefix []Op)
+	rec = func(prefix []Op) {
+		if len(prefix) > 0 {
+			visit(&Case{NName: 2, Ops: append([]Op{}, prefix...)})
+		}
+		if len(prefix) == maxLen {
+			return
+		}
+		for _, e := range ops {
+			rec(append(prefix, e))
+		}
+	}
+	rec(nil)
+}
+
 func GenDuring(t *rapid.T) *DuringCase {
 	c := &DuringCase{NName: rapid.IntRange(2, len(Names)).Draw(t, "nnames"), Handler: rapid.Bool().Draw(t, "handler")}
 	names := Names[:c.NName]
